@@ -566,6 +566,12 @@ def call_seq_method(ex, recv, name, A, kw, st, node):
         if name == 'get':
             return recv.get(A[0], A[1] if len(A) > 1 else None)
         raise SymErr('dict.%s' % name)
+    if isinstance(recv, SInt):
+        hook = getattr(ex.c, 'method_model', None)
+        r = hook(ex, recv, name, A, kw, st, node) if hook is not None else NotImplemented
+        if r is NotImplemented:
+            raise SymErr('method %s of an abstract value (line %d)' % (name, node.lineno))
+        return r
     sq = seq_arg(ex, recv, st)
     mut = isinstance(recv, Ref)
     if name == 'append' and mut:
